@@ -10,7 +10,7 @@ EXPLANATION = ('Structural necessary conditions of topic aliasing: an outbound r
                'by encoding the packet with that resolution; resolvers are reset only by a successful CONNACK with the CONNACK\'s alias maximum; '
                'every resolution literal that drops the topic is dominated by a binding-equals-topic test and new bindings by range tests; the '
                'MQTT 5 writer takes topic/alias from the resolution only and the 3.1.1 writer never aliases; inbound resolution precedes '
-               'validation and handling and rejects zero / out-of-range / unknown aliases.')
+               'validation and handling and rejects zero / out-of-range / unknown aliases. Added in round 2: the LRU resolver evicts the least-recently-used binding whenever the negotiated maximum is reached, before recording a new binding.')
 ASSUMPTIONS = ['not decided: agreement of the resolver tables with what the server saw over all histories beyond the resolve-then-send rule; user-supplied OutboundAliasResolver implementations']
 P = 'src/protocol.rs'
 PS = 'protocol::ProtocolState'
@@ -101,6 +101,22 @@ def run(ctx):
     la = ctx.fn('<alias::LruOutboundAliasResolver as alias::OutboundAliasResolver>::resolve_and_apply_topic_alias')
     pushes = [c for c in la.calls('LruCache::push')]
     ctx.ob(len(pushes) == 1 and guarded_any(la, pushes[0].bb, [r'^!\(?.*skip_topic\)?$']) and 'ToString::to_string(topic)' in show(pushes[0].arg(1)), 'LRU records the (topic, alias) binding when it sends topic+alias', 'lru|record', loc=la.loc())
+    # (added after seed C17-2) recycling: the resolver reuses the least-recently-used binding's alias when the *server's* maximum is
+    # reached (which may be smaller than the cache capacity), so that binding must be forgotten before the new one is recorded
+    pops = [c for c in la.calls('LruCache::pop_lru')]
+    FULL = r'^\(LruCache::len\(self\.cache\) == self\.current_maximum_alias_value as usize\)$'
+    full_edges = prims.edge_nodes_matching(la, [FULL])
+    okr = len(pops) == 1 and len(pushes) == 1 and bool(full_edges) and guarded_any(la, pops[0].bb, [FULL])
+    if okr:
+        for en in full_edges:
+            o, _ = prims.must_pass(la, en, [pops[0].bb], targets=[pushes[0].bb], after_start=False)
+            okr = okr and o
+        _, pred_, _ = la.graph()
+        dec = set()
+        for en in full_edges:
+            dec.update(pred_[en])
+        okr = okr and any(la.dominates(d, pushes[0].bb) for d in dec)
+    ctx.ob(okr, 'LRU: whenever the cache already holds as many bindings as the negotiated maximum allows, the least-recently-used binding (whose alias is recycled) is removed before the new binding is recorded, and that test is made before every recording', 'lru|evict-before-record', loc=la.loc())
     ma = ctx.fn('<alias::ManualOutboundAliasResolver as alias::OutboundAliasResolver>::resolve_and_apply_topic_alias')
     ins = [m for m in prims.mutations(ma) if m.method == 'insert']
     ctx.ob(len(ins) == 1 and guarded_any(ma, ins[0].bb, [r'skip_topic$']) and guarded_any(ma, ins[0].bb, [r'\.alias is Some$']), 'manual records the binding when it sends topic+alias', 'manual|record', loc=ma.loc())
@@ -140,7 +156,7 @@ def run(ctx):
             o, _ = must_pass(inc, en, [r[0].bb], targets=[va[0].bb], after_start=False)
             okp = okp and o
         ctx.ob(okp, 'for a PUBLISH, validation is reached only through the alias resolver', 'inbound|order', loc=inc.loc())
-        ctx.ob(guarded_any(inc, hp[0].bb, [r'^!Result::is_err\(validate::validate_packet_inbound_internal\(']), 'handling only after validation succeeded', 'inbound|validated', loc=inc.loc())
+        ctx.ob(guarded_any(inc, hp[0].bb, [r'^validate::validate_packet_inbound_internal\(.* is Ok$']), 'handling only after validation succeeded', 'inbound|validated', loc=inc.loc())
         eb = [b for b in prims.err_blocks(inc) if guarded_any(inc, b, [r'^InboundAliasResolver::resolve_topic_alias\(.*\) is Err$'])]
         ctx.ob(bool(eb), 'a resolution failure fails the connection', 'inbound|fail', loc=inc.loc())
     ir_ = ctx.fn('InboundAliasResolver::resolve_topic_alias')
